@@ -269,11 +269,13 @@ OpenCon ==
                       /\ out' = Append(out, Rec(k, "", v, n, lb, 0))
                       /\ stack' = Append(ToExec, Ent(k, v, n, lb, "body"))
                       /\ nlab' = IF shared THEN nlab ELSE nlab + 1
-               ELSE /\ out' = Append(out, Rec(k, "", v, n, 0, 0))
+               ELSE \E lab \in BOOLEAN :          \* the opening statement may carry a statement label of its own
+                    /\ (lab => LabelStmts)
+                    /\ out' = Append(out, Rec(k, "", v, n, IF lab THEN nlab ELSE 0, 0))
                     /\ stack' = Append(ToExec, Ent(k, v, n, 0,
                                    CASE k = "if" -> "then" [] k \in {"selcase","seltype"} -> "head"
                                      [] k = "block" -> "decl" [] OTHER -> "body"))
-                    /\ UNCHANGED nlab
+                    /\ nlab' = IF lab THEN nlab + 1 ELSE nlab
             /\ needs08' = (needs08 \/ k \in {"block","crit","doconc"})
             /\ nname' = nname + nm
   /\ UNCHANGED <<done, nunit>>
@@ -316,9 +318,13 @@ CloseCon ==
                                        1, IF how = "enddo" THEN Top.n ELSE 0, Top.l, IF how = "enddo" /\ Top.n > 0 THEN 1 ELSE 0)
                                    EXCEPT !.d = IF how = "stmt" THEN Depth ELSE Depth - 1])
             /\ stack' = CloseLabel(stack, Top.l)
-     ELSE /\ out' = Append(out, [Rec("end", Top.k, Top.v, Top.n, 0, IF Top.n > 0 THEN 1 ELSE 0) EXCEPT !.d = Depth - 1])
+            /\ UNCHANGED nlab
+     ELSE \E lab \in BOOLEAN :                    \* so may the END statement
+          /\ (lab => LabelStmts)
+          /\ out' = Append(out, [Rec("end", Top.k, Top.v, Top.n, IF lab THEN nlab ELSE 0, IF Top.n > 0 THEN 1 ELSE 0) EXCEPT !.d = Depth - 1])
           /\ stack' = Pop(stack)
-  /\ UNCHANGED <<done, needs08, nlab, nname, nunit, rich>>
+          /\ nlab' = IF lab THEN nlab + 1 ELSE nlab
+  /\ UNCHANGED <<done, needs08, nname, nunit, rich>>
 
 Finish ==
   /\ ~done /\ stack = <<>> /\ nunit > 0
